@@ -86,9 +86,14 @@ def _bind_nested(parent, elements):
     # a wrapper built while the parent's value was validated is bound to the scratch Structure()
     # used for that validation: bind it to the parent instead
     for element in elements:
-        if (
-            isinstance(element, (_ListStruct, _DequeStruct, _DictStruct))
-            and type(getattr(element, "_instance", None)) is Structure
+        if not isinstance(element, (_ListStruct, _DequeStruct, _DictStruct)):
+            continue
+        owner = getattr(element, "_instance", None)
+        if type(owner) is Structure or (
+            # a copy (deepcopy / pickle) of a nested wrapper still carries the stand-in owner of the
+            # object it was copied from: it has no owner of its own yet
+            isinstance(owner, _NestedOwner)
+            and object.__getattribute__(owner, "_child") is not element
         ):
             element._instance = _NestedOwner(parent, element)
 
